@@ -103,7 +103,7 @@ func vxSpecMatch(addrs []felt.Address, keys [][]felt.Felt, e *core.Event) bool {
 }
 
 func VxC09PreConfirmedPaging() {
-	vx.Bound("2 pre-confirmed blocks holding 3 (thorough: 4) events in 3 transactions, emitters and keys from a 2-value domain, 0..1 keys per event; filter: 0..1 address, 0..1 key positions with 0..2 alternatives; chunk size 1..4")
+	vx.Bound("2 pre-confirmed blocks: block 12 with 3 events in 2 transactions, block 11 with a transaction without events (thorough: one event), emitters and keys from a 2-value domain, 0..1 keys per event; filter: 0..1 address, 0..1 key positions with 0..2 alternatives; chunk size 1..4")
 	if vx.InEngine() {
 		vx.Stub("(*github.com/NethermindEth/juno/blockchain.EventMatcher).TestBloom", vxMaybe)
 	}
@@ -127,12 +127,14 @@ func VxC09PreConfirmedPaging() {
 		return &pending.PreConfirmed{Block: &core.Block{Header: h, Receipts: rs}}, all
 	}
 	vxMaxKeys = 1
-	perTxB := []int{1, 1}
+	// block 12 holds three events in two transactions (a page can be cut between two events of one
+	// block after a non-matching one); block 11 holds one event in the thorough tier only
+	perTxA := []int{0}
+	perTxB := []int{1, 2}
 	if vx.Thorough() {
-		// (two keys per event as well exceed the path budget; the thorough tier adds the fourth event)
-		perTxB = []int{1, 2}
+		perTxA = []int{1}
 	}
-	b1, ev1 := mk(11, []int{1}, "a")
+	b1, ev1 := mk(11, perTxA, "a")
 	b2, ev2 := mk(12, perTxB, "b")
 	chain := vxChain{[]*pending.PreConfirmed{b1, b2}}
 	naive := append(ev1, ev2...)
